@@ -44,7 +44,8 @@ def required_cells(tier):
             "history:tensor-replaced": 2, "feed:buffer": 3,
             "feed:fortran": 3, "env:time-dependent": 3, "gauge": 10,
             "gauge:bond-dimension-1": 3, "bond-dimension-1": 5,
-            "record_all:False": 10, "pt-lengths-differ": 4,
+            "record_all:False": 10,
+            "system:slow-near-identity-propagators": 5, "pt-lengths-differ": 4,
             "drive-commensurate-with-half-step": 3}
 
 
@@ -149,8 +150,15 @@ def run_ancilla(case):
             cells.append("caps:compute")
     skind = "td" if i % 4 == 3 else "const"
     commens = bool(skind == "td" and i % 8 == 7)
-    sysd = scen.random_system(rng, d, skind, n_lind=0 if commens else None,
-                              drive_period=dt / 2 if commens else None)
+    slow = bool(skind == "const" and i % 10 == 6)
+    if slow:
+        # (switch_on carries the time step for the "slow" kind)
+        sysd = scen.random_system(rng, d, "slow", switch_on=dt)
+        cells.append("system:slow-near-identity-propagators")
+    else:
+        sysd = scen.random_system(
+            rng, d, skind, n_lind=0 if commens else None,
+            drive_period=dt / 2 if commens else None)
     if commens:
         cells.append("drive-commensurate-with-half-step")
     subdiv = None if (skind == "td" and i % 8 == 3) else 256
